@@ -32,7 +32,7 @@ ARCH = {
     'policy':   {'spec': {'kex': ['curve25519-sha256'], 'key': ['rsa-sha2-512', 'ssh-ed25519'], 'enc': ['aes128-ctr'], 'mac': ['hmac-sha2-256'], 'hostkeys': dict(RSA, **HK_ED)}, 'argv': ['-P', 'Hardened OpenSSH Server v9.9 (version 1)']},
     'json':     {'spec': {'kex': ['curve25519-sha256', 'diffie-hellman-group-exchange-sha256'], 'key': ['ssh-ed25519', 'rsa-sha2-256'], 'enc': ['aes128-ctr'], 'mac': ['hmac-sha2-256'], 'hostkeys': dict(RSA, **HK_ED), 'moduli': [2048], 'gex_style': 'strict'}, 'argv': ['-j']},
 }
-BANNER_RX = re.compile(rb'^SSH-(1\.99|2\.0|1\.\d+)-[\x21-\x7e]*( [\x20-\x7e]*)?\r?$')
+BANNER_RX = re.compile(rb'^SSH-(1\.99|2\.0|1\.\d{1,9})-[\x21-\x7e]*( [\x20-\x7e]*)?\r?$')
 TYPES = [0, 1, 2, 4, 20, 21, 30, 31, 32, 33, 34, 255]
 
 
@@ -249,7 +249,81 @@ def eval_names(case):
     return mkres(case, nt=True, classes=['odd-names', 'mode:' + case['mode'], 'cat:' + case['cat']], fails=fails)
 
 
+RATE_BEHAVIOURS = ['normal', 'close', 'reset', 'refuse', 'stall', 'greet:Exceeded MaxStartups\r\n', 'greet:SSH-', 'greet:\x00\xff\x00\xff\x00\xff\x00\xff\x00\xff', 'greet:Exceeded',
+                   'mixed:2:reset', 'mixed:3:close', 'mixed:5:stall', 'mixed:2:refuse', 'mixed:7:greet:Exceeded MaxStartups\r\n']
+
+
+def eval_rate(case):
+    """The connection-rate check is a stage of a standard audit too: whatever the peer does on those connections, the
+    audit ends, with a documented status and - the handshake being clean - a complete report."""
+    name = case['arch']
+    a = ARCH[name]
+    spec = dict(a['spec'], faults=case.get('faults', []), rate=case['rate'])
+    peer = fakenet.peer_from_spec(spec)
+    net = fakenet.FakeNet()
+    net.add('h', 22, peer)
+    r = drive.run_cli(['-n'] + list(a['argv']) + ['-t', str(TIMEOUT), 'h'], net)
+    fails = []
+    tag = 'arch %s, rate-check connections answered with %r, faults %r' % (name, case['rate'], case.get('faults', []))
+    nb = [c for c in net.connects if c[4]]
+    cl = ['rate-check-stage', 'arch:' + name, 'rate:' + case['rate'].split(':')[0] + (':' + case['rate'].split(':')[2] if case['rate'].startswith('mixed') else ''), 'rate-connections:%s' % ('0' if not nb else '1+')]
+    if r.hang:
+        fails.append(['hang:rate-check', '%s: %s' % (tag, r.hang)])
+    elif r.exc:
+        fails.append(['%s:rate-check-phase' % drive.crash_sig(r), '%s: %s' % (tag, r.exc.strip().splitlines()[-1][:200])])
+    else:
+        if r.code not in (0, 1, 2, 3):
+            fails.append(['undocumented-exit-status-%d' % r.code, tag])
+        if not case.get('faults'):
+            first_handshake_status(peer.conns[0] if peer.conns else None, 2)
+            if r.code not in (0, 2, 3) or not complete_report(r.out, name):
+                fails.append(['wellformed-handshake-but-no-complete-report', '%s: exit %d; tail %r' % (tag, r.code, r.out[-200:])])
+        elif has_report(r.out, a['argv']) != (r.code in (0, 2, 3)):
+            fails.append(['report-presence-vs-status', '%s: exit %d' % (tag, r.code)])
+        nconn = max(1, len(net.connects))
+        if net.clock > TIMEOUT * (2 * nconn + 1) + 1.5:
+            fails.append(['waiting-time-exceeds-bound', '%s: waited %.1fs virtual over %d connections' % (tag, net.clock, nconn)])
+    return mkres(case, nt=bool(nb), classes=cl, fails=fails)
+
+
+BIG_BANNERS = ['SSH-2.%s-OpenSSH_9.0', 'SSH-1.%s-OpenSSH_3.0', 'SSH-%s.0-OpenSSH_9.0', 'SSH-2.0-OpenSSH_%s', 'SSH-2.0-OpenSSH_9.%s', 'SSH-2.0-OpenSSH_9.%sp1 Debian-1', 'SSH-2.0-OpenSSH_%s.%s', 'SSH-2.0-dropbear_%s.80', 'SSH-2.0-dropbear_2020.%s',
+               'SSH-2.0-libssh_0.%s.1', 'SSH-2.0-libssh-0.9.%s', 'SSH-2.0-tinyssh_%s', 'SSH-2.0-PuTTY_Release_0.%s', 'SSH-2.0-Cisco-1.%s', 'SSH-1.99-SSH-2.%s-OpenSSH_9.0', 'SSH-2.0-x %s', 'SSH-2.0-%s', 'SSH-2.0-OpenSSH_for_Windows_%s.1',
+               'SSH-2.0-OpenSSH_9.0 FreeBSD-%s', 'SSH-2.0-OpenSSH_9.0p1 Ubuntu-%subuntu0.%s', 'SSH-2.0-ROSSSH_%s', 'SSH-2.0-mpSSH_0.%s.1', 'SSH-2.0-RomSShell_%s.62']
+
+
+def eval_bignum(case):
+    """Identification strings with numbers of thousands of digits wherever the grammar has a number."""
+    digits = (case['digit'] * case['n'])[:case['n']]
+    banner = case['form'].replace('%s', digits)
+    spec = {'banner': banner, 'kex': ['curve25519-sha256', 'diffie-hellman-group14-sha1'], 'key': ['ssh-ed25519', 'ssh-rsa'], 'enc': ['aes128-ctr', '3des-cbc'], 'mac': ['hmac-sha2-256']}
+    argv0, client = NAME_MODES[case['mode']]
+    peer = fakenet.peer_from_spec(spec)
+    net = fakenet.FakeNet()
+    argv = ['-n'] + list(argv0)
+    if client:
+        net.pending_clients.append(peer)
+    else:
+        net.add('h', 22, peer)
+        argv += ['--skip-rate-test', 'h']
+    r = drive.run_cli(argv, net)
+    fails = []
+    tag = 'banner %s with a %d-digit number (%r...), mode %s' % (case['form'], case['n'], digits[:6], case['mode'])
+    if r.hang:
+        fails.append(['hang:handshake', tag])
+    elif r.exc:
+        fails.append(['%s:long-number-in-banner' % drive.crash_sig(r), '%s: %s' % (tag, r.exc.strip().splitlines()[-1][:160])])
+    elif r.code not in (0, 1, 2, 3):
+        fails.append(['undocumented-exit-status-%d' % r.code, tag])
+    elif has_report(r.out, argv) != (r.code in (0, 2, 3)):
+        fails.append(['report-presence-vs-status', '%s: exit %d' % (tag, r.code)])
+    return mkres(case, nt=True, classes=['long-number-in-banner', 'digits:%d' % case['n'], 'mode:' + case['mode']], fails=fails)
+
+
 def eval_case(case):
+    if case.get('kind') == 'bignum':
+        return eval_bignum(case)
+    if case.get('kind') == 'rate':
+        return eval_rate(case)
     if case.get('kind') == 'ab':
         return eval_ab(case)
     if case.get('kind') == 'names':
@@ -419,6 +493,9 @@ def enumerate_faults(name, quick, rng):
                 add(idx, what, ['type', t])
             for k in (1, 3, 40):
                 add(idx, what, ['debug', k])
+            if dense and (not quick or idx <= 1 or what in ('gex_group', 'gex_reply')):
+                for k in (1100, 3500):
+                    add(idx, what, ['debug', k])        # "any finite sequence": a run longer than any interpreter-level nesting limit
             for v in (0, 1, 3, 4, 5, 7, 0x1234, 0x7fffffff, 0xffffffff, len(raw) - 4 + 8, len(raw) - 4 - 8):
                 add(idx, what, ['set_len', v])
             for v in (0, 1, 3, 200, 255):
@@ -545,6 +622,20 @@ def run(ctx):
     ab = [dict(c, kind='ab') for c in pool[:(32 if ctx.quick else 400)]]
     ctx.map(ab, chunk=1)
     ctx.note(traces_validated_against_impl=len(ab))
+    # the rate-check stage (standard audits run it unless told otherwise): every behaviour towards those connections,
+    # alone and together with one probe-phase fault
+    rate = []
+    for name in ('ed25519', 'rsa-cert-gex', 'gex-first', 'json', 'policy'):
+        for beh in RATE_BEHAVIOURS:
+            rate.append({'kind': 'rate', 'arch': name, 'rate': beh})
+            for f in ([['kexdh_reply', 1, 'close']], [['kexinit', 1, 'stall']], [['connect', 2, 'refuse']]) if not ctx.quick else ([['kexdh_reply', 1, 'close']],):
+                rate.append({'kind': 'rate', 'arch': name, 'rate': beh, 'faults': f})
+    ctx.map(rate)
+    ctx.note(rate_check_stage_cases=len(rate))
+    big = [{'kind': 'bignum', 'form': f, 'n': n, 'digit': d, 'mode': m} for f in BIG_BANNERS for n in ((4300, 4301, 20000) if ctx.quick else (19, 20, 310, 4299, 4300, 4301, 5000, 20000, 70000)) for d in ('9', '10', '0')
+           for m in (('text', 'json', 'client') if not ctx.quick else ('text', 'json' if len(f) % 2 else 'policy'))]
+    ctx.map(big)
+    ctx.note(long_number_banner_cases=len(big))
     odd = [{'kind': 'names', 'mode': m, 'cat': c, 'name': n, 'alone': al} for m in NAME_MODES for c in ('kex', 'key', 'enc', 'mac', 'comp') for n in ODD_NAMES for al in (True, False)]
     ctx.map(odd)
     ctx.note(odd_name_cases=len(odd))
@@ -559,5 +650,5 @@ def run(ctx):
                     seeds.append(bytes([{'kexdh_reply': 0, 'gex_reply': 0, 'gex_group': 1, 'kexinit': 2}[what]]) + payload[1:])
         fuzzrun.run_into(ctx, 'c09_parsers', runs=250000, shards=16, seeds_corpus=seeds[:12], max_len=2048)
     ctx.note(enumerated_fault_cases=len(allc), archetypes=sorted(ARCH), timeout_s=TIMEOUT)
-    return ctx.finish('fault_enumeration', 'for each of 9 transcript archetypes (Ed25519-only, RSA+certificates+GEX, GEX-first, SSH-1 with -1, SSH-1 through the version-mismatch fallback, a peer answering every attempt with the version-mismatch text, client audit, policy audit, JSON) a clean run records every message of every connection; injected: truncation at every byte offset (sampled above 80 bytes in quick) then close / stall, every byte inverted / bit-flipped, close / stall / reset / duplicate, payload truncated at every byte and re-framed, every structural length field := 0, len-1, len+1, 2^31-1, 2^32-1, payload length, every message type from {0,1,2,4,20,21,30,31,32,33,34,255}, 1/3/40 MSG_DEBUG in front, bad packet-length / padding fields, garbage and very long pre-banner lines, refused / timed-out / closed / silent connections at every connection index, 1/2/7-byte segmentation; Hypothesis byte mutations and double faults; non-trivial = the fault was actually reached',
+    return ctx.finish('fault_enumeration', 'for each of 9 transcript archetypes (Ed25519-only, RSA+certificates+GEX, GEX-first, SSH-1 with -1, SSH-1 through the version-mismatch fallback, a peer answering every attempt with the version-mismatch text, client audit, policy audit, JSON) a clean run records every message of every connection; injected: truncation at every byte offset (sampled above 80 bytes in quick) then close / stall, every byte inverted / bit-flipped, close / stall / reset / duplicate, payload truncated at every byte and re-framed, every structural length field := 0, len-1, len+1, 2^31-1, 2^32-1, payload length, every message type from {0,1,2,4,20,21,30,31,32,33,34,255}, 1/3/40 MSG_DEBUG in front, bad packet-length / padding fields, garbage and very long pre-banner lines, refused / timed-out / closed / silent connections at every connection index, 1/2/7-byte segmentation; runs of 1100 and 3500 MSG_DEBUG; identification strings with numbers of up to 70000 digits in every numeric position of 23 banner forms; the rate-check stage answered in 14 ways (closed, reset, refused, silent, greeted with MaxStartups text / partial banners / binary, every k-th connection only); Hypothesis byte mutations and double faults; non-trivial = the fault was actually reached',
                       assumptions=['virtual time: a stalled read costs exactly the configured timeout', 'well-formedness of the first handshake is judged by the independent strict parser in vlib/wire.py; inputs it rejects but that still decode as a KEXINIT may go either way'])
